@@ -53,6 +53,9 @@ func genCanonValue(r *Rng, pf *PField, inDomain bool) (string, bool) {
 			off = r.Intn(2*50400+1) - 50400 // any second within +-14 h
 		}
 		wall := int64(0x10000000 + r.U64()%0xE0000000)
+		if r.Chance(1, 10) {
+			wall = int64(1 + r.U64()%0x0FFFFFFF) // a calendar time before July 1998 is a legal local time too
+		}
 		if r.Chance(1, 5) {
 			// a location with daylight saving time: the offset follows from the instant
 			// (summer and winter values side by side in one File)
